@@ -263,6 +263,20 @@ class Verifier:
         self.note_assumption("x**y: only 0<x => x**y>0, 0<x<=1 & y>=0 => x**y<=1, x**0==1 are used")
         return r
 
+    def floordiv_term(self, I, a, b):
+        """a // b with a symbolic divisor: an uninterpreted function plus sound linear facts
+        (keeps the goals out of nonlinear integer arithmetic; equal operands give equal results)."""
+        f = z3.Function("py_floordiv", z3.IntSort(), z3.IntSort(), z3.IntSort())
+        if not getattr(I.path, "_fd_axiom", False):
+            I.path._fd_axiom = True
+            x, y = z3.Ints("fd_x fd_y")
+            I.path.assume(z3.ForAll([x, y], z3.Implies(z3.And(y > 0, x >= 0), z3.And(f(x, y) >= 0, f(x, y) <= x)),
+                                    patterns=[f(x, y)]))
+            I.path.assume(z3.ForAll([x, y], z3.Implies(z3.And(y > 0, x < 0), f(x, y) < 0), patterns=[f(x, y)]))
+            self.note_assumption("x // y with symbolic y is an uninterpreted function constrained only by "
+                                 "0 <= x//y <= x (x>=0,y>0) and x//y < 0 (x<0,y>0)")
+        return f(a, b)
+
     def round_term(self, I, x, nd):
         f = z3.Function("round_nd", z3.RealSort(), z3.IntSort(), z3.RealSort())
         return f(x, to_int(nd))
